@@ -32,6 +32,7 @@ ASSUMPTIONS = [
     "keypoints in general position (fixed non-dyadic fractional parts); scene geometry scaled to the coarsest cell of the chain (resolution rule, DESIGN C02); configurations whose geometry cannot satisfy the rule are counted as skipped_infeasible, not as violations",
     "configurations in which a resampling stage would produce a non-integer target size are the domain of known finding K4 (truncating resize, C04) and are counted as skipped_k4_domain; scenes grow by an integer factor so that eff_scale is preserved",
     "tolerance = half an output-stride cell mapped back to the original frame plus the resampling phase the ideal network cannot see through: half a model-input pixel, or 0.5*|s_total-1| input px when the total up-scaling exceeds 2 (the half-pixel convention of known finding K4), plus 0.06 input px for the ideal network's own sub-pixel localisation accuracy",
+    "top-down scenes: the animal count grows from frame 0 to frame 1; with batch 3 and the video reader a frame without any animal is also placed first (thorough: also between the two) in the batch and must yield no record while the other frames keep theirs",
     "grid values: see bounds; other values are outside the bound",
 ]
 
@@ -204,6 +205,11 @@ def run_topdown(case, tmp):
             animals.append(animal_pts(2.2 * a + 6.0 * a, 2.2 * a + 1.4 * a - f, a, f + 1, invisible=(1 if (case["layout"] == 1 and f == 0) else None)))
         frames.append({"image": S.render(H, W, animals, radius=r), "instances": animals})
         truth.append(animals)
+    if case.get("empty"):  # a frame without any animal before / between the others (in the same batch when batch = 3)
+        at = 0 if case["empty"] == "first" else 1
+        frames.insert(at, {"image": S.render(H, W, [], radius=r), "instances": []})
+        truth.insert(at, [])
+    nf = len(frames)
     slp = S.write_labels(tmp, frames, sk, name="t", embed=True)
     path = slp if case["provider"] == "LabelsReader" else S.png_video_paths(tmp, "t")
 
@@ -221,13 +227,15 @@ def run_topdown(case, tmp):
 
     outs = I.run_predictor(mk(), case["provider"], path, make_labels=False)
     tol = (0.5 * case["i_stride"] + phase_allowance(case["i_scale"] * eff) + LOCATOR_SLACK) / (case["i_scale"] * eff) + 1e-3
-    got = {0: [], 1: []}
+    got = {f: [] for f in range(nf)}
     for o in outs:
         for fi, pk, pv, bb in zip(o["frame_idx"], o["pred_instance_peaks"], o["pred_peak_values"], o["instance_bbox"]):
             pk = np.asarray(pk, dtype=np.float64) + np.asarray(bb, dtype=np.float64).reshape(-1, 2)[0]
             got.setdefault(int(fi), []).append((pk, np.asarray(pv, dtype=np.float64)))
     worst = 0.0
-    for f in range(2):
+    if set(got) - set(range(nf)):
+        return f"records for frames {sorted(set(got) - set(range(nf)))} which do not exist", None
+    for f in range(nf):
         if len(got.get(f, [])) != len(truth[f]):
             return f"frame {f}: {len(got.get(f, []))} instances reported for {len(truth[f])} animals", None
         used = set()
@@ -256,7 +264,7 @@ def run_topdown(case, tmp):
         theirs = sorted([np.round(inst.numpy(), 3).tolist() for inst in lf.instances], key=repr)
         if not np.allclose(np.array(mine, dtype=float), np.array(theirs, dtype=float), atol=2e-3, equal_nan=True):
             return f"make_labels=True gives {theirs} for frame {f} but raw output + bbox corner is {mine}", None
-    return None, {"worst_err_over_tol": round(worst, 3), "obs": [[np.round(p, 2).tolist() for p, _ in got[f]] for f in range(2)]}
+    return None, {"worst_err_over_tol": round(worst, 3), "obs": [[np.round(p, 2).tolist() for p, _ in got[f]] for f in range(nf)]}
 
 
 # ---------------------------------------------------------------------------
@@ -287,6 +295,14 @@ def grid(tier):
             "model": "topdown", "hw": list(hw), "max_hw": list(mx), "c_scale": c, "i_scale": i, "c_max_stride": 16, "i_max_stride": 16 if cr % 16 == 0 else 8,
             "c_stride": cst, "i_stride": ist, "crop": cr, "refinement": rf, "batch": b, "provider": prov, "animals": an, "layout": lay,
         })
+    # a frame without animals first / in the middle of a 3-frame batch (VideoReader: plain frames)
+    extra = []
+    for c in cases:
+        if c["model"] == "topdown" and c["batch"] == 3 and c["provider"] == "VideoReader" and (tier != "quick" or c["i_scale"] == 1.0):
+            extra.append(dict(c, empty="first"))
+            if tier != "quick":
+                extra.append(dict(c, empty="middle"))
+    cases += extra
     # top-down with ground-truth centroids (centred-instance model only; needs the labels => LabelsReader)
     if tier == "quick":
         hws, maxs, iscs, ists, crops, refs, batches, animals = [(64, 96)], [(None, None), (96, 160)], [1.0, 0.5], [2], [32], [None, "integral"], [3], [2]
